@@ -264,6 +264,31 @@ def run_case(case, obs):
     ok = type(rc) is type(comp) and rc.operator is comp.operator and rc.region1 == comp.region1.rotate(pivot, A) \
         and rc.region2 == comp.region2.rotate(pivot, A) and dict(rc.meta) == dict(comp.meta) and dict(rc.visual) == dict(comp.visual)
     obs.check(ok, 'compound-rotate-not-componentwise', f'{opname}: rotate() does not equal the compound of the rotated operands', 'commute-rotate')
+    # ... and the rotated compound contains a rotated position exactly when the original contained the unrotated one
+    # (the harness rotates the positions itself; positions near an outline of an operand are not judged)
+    qx, qy = np.asarray(pc.x, dtype=float).ravel(), np.asarray(pc.y, dtype=float).ravel()
+    if qx.size:
+        th = float(A.to_value(u.rad))
+        z = ((qx - float(pivot.x)) + 1j * (qy - float(pivot.y))) * complex(math.cos(th), math.sin(th))
+        rx, ry = float(pivot.x) + z.real, float(pivot.y) + z.imag
+        ins, dec = geom.contains_member(comp, qx, qy)
+        _cx, _cy, Lc = c01.region_scale(comp)
+        reach = np.hypot(qx - float(pivot.x), qy - float(pivot.y)) + abs(float(pivot.x)) + abs(float(pivot.y))
+        # conservative: also require the library's own answer on the unrotated positions to agree with the model there
+        near = ~dec
+        for leaf in (n for n in walk(comp) if not type(n).__name__.startswith('Compound') and type(n).__name__ not in ('PointPixelRegion', 'LinePixelRegion', 'TextPixelRegion')):
+            m, band = geom.shape_margin(leaf, qx, qy)
+            near |= np.abs(m) <= np.asarray(band) + 1e-9 * reach * (1 + abs(th)) + 1e-7 * Lc
+        got = np.asarray(rc.contains(PixCoord(rx, ry))).ravel()
+        bad = ~near & (got != ins)
+        obs.skip(int(near.sum()), 'commute-rotate')
+        if bad.any():
+            i = int(np.flatnonzero(bad)[0])
+            obs.violation('compound-rotate-membership-differs', f'{opname}: after rotate(pivot=({float(pivot.x)!r}, {float(pivot.y)!r}), {A!r}) the position '
+                          f'({rx[i]!r}, {ry[i]!r}) is {"inside" if got[i] else "outside"} although its pre-image ({qx[i]!r}, {qy[i]!r}) is '
+                          f'{"inside" if ins[i] else "outside"} the original; {int(bad.sum())} of {int((~near).sum())} positions differ')
+        else:
+            obs.ok(int((~near).sum()), 'commute-rotate')
     # (iv) conversion commutes
     if case['wcs'] is not None:
         w = S.build(case['wcs'])
